@@ -129,6 +129,21 @@ pub fn judge(ctx: &mut Ctx, ast: &RangeAst, extra_probes: &[MV], stratum_class: 
     let r = match guarded(|| Range::parse(&text)) {
         Ok(Ok(r)) => r,
         Ok(Err(_)) => {
+            // whether the text should parse at all is C01's subject; but a prerelease that the
+            // documented comparators admit (both readings) *through a written tag on its own
+            // tuple* is opted in, and a range that refuses to exist blocks it
+            let tags = written_tag_tuples(ast);
+            for v in probe_set(&des.versions()) {
+                if v.is_pre() && gate_open(&tags, &v) && des.verdict(&v) == Verdict::Admit {
+                    ctx.eval(1);
+                    ctx.violation(
+                        &format!("tag-lost/unparsed/{}", tagged_forms(ast)),
+                        json!({"range": text, "version": v.text()}),
+                        format!("{:?} does not parse although its comparators admit {} through a tag written on that tuple", text, v.text()),
+                    );
+                    return;
+                }
+            }
             ctx.skip("range does not parse (C01's subject)");
             return;
         }
@@ -398,6 +413,29 @@ pub fn run(ctx: &mut Ctx) {
                     // both ends tagged on different tuples
                     let d = RangeAst { alts: vec![Alt::Set(vec![Tok::Cmp(lo, full(lt.0, lt.1, lt.2, tag)), Tok::Cmp(up, full(ut.0, ut.1, ut.2 + 1, "beta"))])] };
                     judge(ctx, &d, &[], "conj");
+                }
+            }
+        }
+    }
+    // windows whose two ends sit on *neighbouring* tuples (next patch / minor / major, and the
+    // same tuple), every combination of inclusive / exclusive ends and of tags on either end:
+    // where "nothing lies between" shortcuts would cut
+    ctx.stratum("S-successor-tuple-windows", true);
+    for (lt, ut) in [((1u64, 2u64, 3u64), (1u64, 2u64, 4u64)), ((1, 2, 3), (1, 3, 0)), ((1, 2, 3), (2, 0, 0)), ((0, 0, 3), (0, 0, 4)), ((0, 0, 0), (0, 0, 1)), ((1, 2, 3), (1, 2, 3)), ((1, 2, 3), (1, 2, 5))] {
+        for lo in [Op::Gt, Op::Ge] {
+            for up in [Op::Lt, Op::Le] {
+                for ltag in ["", "0", "rc"] {
+                    for utag in ["", "0", "rc", "beta.2"] {
+                        if !ctx.take() {
+                            continue;
+                        }
+                        let a = RangeAst { alts: vec![Alt::Set(vec![Tok::Cmp(lo, full(lt.0, lt.1, lt.2, ltag)), Tok::Cmp(up, full(ut.0, ut.1, ut.2, utag))])] };
+                        judge(ctx, &a, &[], "successor-window");
+                        // the same window next to an unrelated alternative (a failing parse of the
+                        // window must not take the union's other members with it)
+                        let b = RangeAst { alts: vec![a.alts[0].clone(), Alt::Set(vec![Tok::Cmp(Op::Bare, full(9, 9, 9, ""))])] };
+                        judge_union(ctx, &b, &[]);
+                    }
                 }
             }
         }
